@@ -171,7 +171,7 @@ M('c16-b64-signed-index', 'C16', 'src/utilities/qencode.c',
 M('c16-url-plus-dropped', 'C16', 'src/utilities/qencode.c',
   "            case '+': {\n                *pBinPt++ = ' ';\n                break;\n            }\n", "", 'TB7', 'qurl_decode', 'plus no longer decodes to space')
 M('c16-x2c-casefold', 'C16', 'src/internal/qinternal.c',
-  "(hex_low >= 'A' ? ((hex_low & 0xdf) - 'A') + 10", "(hex_low >= 'A' ? (hex_low - 'A') + 10", 'TB7', '_q_x2c', 'low nibble not case-folded')
+  "(hex_low >= 'A' ? ((hex_low & 0xdf) - 'A') + 10", "(hex_low >= 'A' ? (hex_low - 'A') + 10", 'TB14', '_q_x2c', 'low nibble not case-folded')
 
 # ---- C07 -------------------------------------------------------------------------------------
 M('c07-slot-pointer-member', 'C07', 'include/qlibc/containers/qhasharr.h',
@@ -586,3 +586,117 @@ M('c12-strndup-key', 'C12', 'src/containers/qtreetbl.c',
   "    void *name = qmemdup(obj->name, obj->namesize);\n    qtreetbl_unlock(tbl);\n    return name;\n}\n\n/**\n * qtreetbl->find_max",
   "    void *name = strndup((const char *) obj->name, obj->namesize);\n    qtreetbl_unlock(tbl);\n    return name;\n}\n\n/**\n * qtreetbl->find_max",
   'R2-bin', 'qtreetbl_find_min', 'binary key duplicated as a string')
+
+
+# ---------------------------------------------------------------------------------------------------------
+# Corpus self-test (thorough tier): the independently seeded changes kept under /verif/seeded must be reported by
+# this property's rules, and the behaviour-preserving refactorings under /verif/refactors must leave them silent.
+# Patches are applied with `git apply` to a scratch copy of the sources under /tmp (never to /repo); a patch that no
+# longer applies to the current tree is skipped and reported as skipped.
+
+def run_corpus(prop, rep, rule_fn, config='cmake-release'):
+    import glob
+    import json
+    import subprocess
+    root = repo_root()
+    verif = os.path.dirname(os.path.dirname(os.path.abspath(__file__)))
+    rep.rule('CORPUS', 'both-ways test on the kept corpus: every seeded change attributed to this check is reported, every '
+                       'behaviour-preserving refactoring leaves it silent')
+    jobs = []
+    for mp in sorted(glob.glob(os.path.join(verif, 'seeded', '*', 'meta.json'))):
+        try:
+            m = json.load(open(mp))
+        except (OSError, ValueError):
+            continue
+        who = m.get('detect_with') or m.get('property')
+        if who != prop:
+            continue
+        expect = 'miss' if str(m.get('detected_by', '')).startswith('NOT DETECTED') else 'alarm'
+        jobs.append((m.get('id'), os.path.join(os.path.dirname(mp), 'patch.diff'), expect))
+    for pp in sorted(glob.glob(os.path.join(verif, 'refactors', '*', 'patch.diff'))):
+        jobs.append(('refactor:' + os.path.basename(os.path.dirname(pp)), pp, 'silent'))
+    results = []
+    from .dataflow import register_identity_functions
+    for (jid, patch, expect) in jobs:
+        scratch = tempfile.mkdtemp(prefix='qv-corpus-', dir='/tmp')
+        try:
+            for d in ('src', 'include'):
+                shutil.copytree(os.path.join(root, d), os.path.join(scratch, d))
+            shutil.copy(os.path.join(root, 'CMakeLists.txt'), scratch)
+            r = subprocess.run(['git', 'apply', '--unsafe-paths', '--directory=' + scratch, patch], cwd='/', capture_output=True, text=True)
+            if r.returncode != 0:
+                r = subprocess.run(['patch', '-p1', '-s', '-d', scratch, '-i', patch], capture_output=True, text=True)
+            if r.returncode != 0:
+                results.append({'case': jid, 'status': 'skipped', 'why': 'patch does not apply to the current tree'})
+                continue
+            scratch_real = os.path.realpath(scratch)
+            sub = Report(prop, rep.tier)
+            sub.cur_config = config
+            broken = None
+            try:
+                prog = load_program(config, scratch_real)
+                register_identity_functions(prog)
+                rule_fn(prog, sub)
+                from .props import FLOORS
+                for rid, n in FLOORS.get(prop, {}).items():
+                    if rid in sub.rules:
+                        sub.floor(rid, n)
+            except AnalysisBroken as e:
+                broken = str(e)[:200]
+            if sub.broken and not broken:
+                broken = sub.broken[0][:200]
+            rep.instance('CORPUS')
+            if expect == 'alarm':
+                ok = bool(sub.findings)
+            elif expect == 'miss':
+                ok = True          # documented miss: recorded, nothing demanded
+            else:
+                ok = not sub.findings and not broken
+            rep.oblige('CORPUS', ok, {'case': jid, 'expected': expect, 'findings': len(sub.findings), 'broken': broken})
+            results.append({'case': jid, 'expected': expect, 'findings': len(sub.findings), 'broken': broken,
+                            'status': 'ok' if ok else 'UNEXPECTED'})
+            if not ok:
+                rep.broken.append('corpus case %s: expected %s, got %d finding(s)%s' % (
+                    jid, expect, len(sub.findings), (' / ' + broken) if broken else ''))
+        finally:
+            shutil.rmtree(scratch, ignore_errors=True)
+            for k in [k for k in _prog_cache if k[1] != root]:
+                del _prog_cache[k]
+    rep.notes['corpus'] = results
+    register_identity_functions(load_program(config, root))
+    return results
+
+# ---- wave 6 rules ------------------------------------------------------------------------------
+M('c05-fresh-cursor', 'C05', 'src/containers/qhashtbl.c',
+  "    if (obj->name != NULL) {\n        idx = (obj->hash % tbl->range) + 1;", "    if (obj->hash != 0 || obj->next != NULL) {\n        idx = (obj->hash % tbl->range) + 1;",
+  'S7', 'qhashtbl_getnext', 'a used cursor with hash 0 at the end of a chain looks fresh')
+M('c10-shift-distance', 'C10', 'src/containers/qvector.c',
+  "        void *src = (unsigned char *)vector->data + vector->objsize * (i - 1);", "        void *src = (unsigned char *)vector->data + vector->objsize * (i - 2);",
+  'G2', 'qvector_addat', 'tail shifted by two elements')
+M('c16-urldec-remap', 'C16', 'src/utilities/qencode.c',
+  "                    *pBinPt++ = _q_x2c(*(pEncPt + 1), *(pEncPt + 2));\n                    pEncPt += 2;",
+  "                    *pBinPt++ = _q_x2c(*(pEncPt + 1), *(pEncPt + 2)) == '+' ? ' ' : _q_x2c(*(pEncPt + 1), *(pEncPt + 2));\n                    pEncPt += 2;",
+  'TB7', 'qurl_decode', 'a decoded %2b mapped again to a space')
+M('c16-urldec-consume', 'C16', 'src/utilities/qencode.c',
+  "                    *pBinPt++ = _q_x2c(*(pEncPt + 1), *(pEncPt + 2));\n                    pEncPt += 2;",
+  "                    *pBinPt++ = _q_x2c(*(pEncPt + 1), *(pEncPt + 2));\n                    pEncPt += 1;",
+  'TB7', 'qurl_decode', 'escape consumes two bytes only')
+M('c16-enc-shrink', 'C16', 'src/utilities/qencode.c',
+  "    *pszEncPt = '\\0';\n\n    return pszEncStr;", "    *pszEncPt = '\\0';\n    pszEncStr = (char *) realloc(pszEncStr, pszEncPt - pszEncStr);\n\n    return pszEncStr;",
+  'TB15', 'qurl_encode', 'output shrunk to the string length without the terminator')
+M('c16-hexdec-strlen', 'C16', 'src/utilities/qencode.c',
+  "    *pBinPt = '\\0';\n\n    return (pBinPt - str);\n}\n\n/**\n * Encode data to Hexadecimal", "    *pBinPt = '\\0';\n\n    return strlen(str);\n}\n\n/**\n * Encode data to Hexadecimal",
+  'TB16', 'qbase64_decode', 'decoded length taken with strlen')
+M('c04-search-bumps-tid', 'C04', 'src/containers/qtreetbl.c',
+  "    qtreetbl_lock(tbl);\n    if (tbl->root != NULL) {\n        // the climb below stops at the root",
+  "    qtreetbl_lock(tbl);\n    reset_iterator(tbl);\n    if (tbl->root != NULL) {\n        // the climb below stops at the root",
+  'T7', None, 'search advances the traversal id')
+M('c04-key-copy-len', 'C04', 'src/containers/qtreetbl.c',
+  "            retobj.name = qmemdup(obj->name, obj->namesize);", "            retobj.name = qmemdup(obj->name, namesize);",
+  'R2-src', 'qtreetbl_find_nearest', 'found key copied with the probe key\'s length')
+M('c12-key-copy-len', 'C12', 'src/containers/qtreetbl.c',
+  "            retobj.name = qmemdup(obj->name, obj->namesize);", "            retobj.name = qmemdup(obj->name, namesize);",
+  'R2-src', 'qtreetbl_find_nearest', 'found key copied with the probe key\'s length')
+M('c17-include-token', 'C17', 'src/extensions/qconfig.c',
+  "            char token[CONST_STRLEN(_INCLUDE_DIRECTIVE) + PATH_MAX];", "            char token[PATH_MAX];",
+  'BW1', 'qconfig_parse_file', 'directive token buffer without room for the directive itself')
